@@ -220,6 +220,62 @@ func c18Run(rc *core.RunCtx) {
 			})
 		}
 	}
+	// (b2) the other compilation differs in its arguments too: every mode x every future flag (alone
+	// and all together) x dont_inherit on and off x a source that compiles, one that starts with a
+	// __future__ import and one that is rejected; afterwards the probe is compiled the usual way
+	// and with dont_inherit off (through the Go API nobody's flags can be inherited: same code)
+	{
+		flagSets := []int{0, py.CO_FUTURE_DIVISION, py.CO_FUTURE_ABSOLUTE_IMPORT, py.CO_FUTURE_WITH_STATEMENT, py.CO_FUTURE_PRINT_FUNCTION, py.CO_FUTURE_UNICODE_LITERALS, py.CO_FUTURE_BARRY_AS_BDFL, py.CO_COMPILER_FLAGS_MASK}
+		srcs := map[py.CompileMode][]string{
+			py.ExecMode:   {"x = 1 / 2\n", "from __future__ import division, barry_as_FLUFL\nx = 1 / 2\n", "x = = 1\n"},
+			py.EvalMode:   {"1 / 2", "(1, 'a' 'b')", "1 +"},
+			py.SingleMode: {"x = 1 / 2\n", "from __future__ import unicode_literals\n", "x = (\n"},
+		}
+		probes := scope
+		if len(probes) > 6 {
+			probes = append(append([]Prog{}, scope[:6]...), c18Tokens)
+		}
+		for _, mode := range []py.CompileMode{py.ExecMode, py.EvalMode, py.SingleMode} {
+			for _, flags := range flagSets {
+				for _, di := range []bool{true, false} {
+					for si, src := range srcs[mode] {
+						for _, b := range probes {
+							if rc.Expired() || rc.Done() {
+								return
+							}
+							if !rc.Take() {
+								continue
+							}
+							mode, flags, di, src, b := mode, flags, di, src, b
+							fields := core.Fields{"part": "history-args", "prog": b.Name, "mode": string(mode), "flags": fmt.Sprintf("%#x", flags), "dont_inherit": fmt.Sprint(di), "src": itoa(si)}
+							input := fmt.Sprintf("py.Compile(%q, \"<other>\", %q, %#x, %v) then py.Compile(%s, ..., exec, 0, true) and (..., 0, false)", src, mode, flags, di, b.Name)
+							rc.Guard(fields, func() string { return input }, func() {
+								py.Compile(src, "<other>", mode, flags, di)
+								got := c18Outcome(b, false)
+								want := strings.Split(base[b.Name], "\nresult=")[0]
+								rc.Eval("history-args", "hista:"+input)
+								if got != want {
+									rc.Deviate(core.Deviation{Fields: fields, Input: input, Expected: "same code object as when compiled first", Observed: firstDiff(want, got), Sig: "history-dependent"})
+									return
+								}
+								code, err := py.Compile(b.Src, b.Name, py.ExecMode, 0, false)
+								got2 := ""
+								if err != nil {
+									t, _, msg := excOf(err)
+									got2 = "error:" + t + ":" + msg
+								} else {
+									got2 = DumpCode(code)
+								}
+								if got2 != want {
+									rc.Deviate(core.Deviation{Fields: fields, Input: input, Expected: "same code object as when compiled first (dont_inherit off, nothing to inherit)", Observed: firstDiff(want, got2), Sig: "history-dependent:inherit"})
+								}
+							})
+						}
+					}
+				}
+			}
+		}
+	}
 	all := append(append([]Prog{}, scope...), repo...)
 	for i := len(all) - 1; i >= 0; i-- {
 		if rc.Expired() || rc.Done() {
@@ -248,8 +304,8 @@ func c18Run(rc *core.RunCtx) {
 			tiny = append(tiny, p)
 		}
 	}
-	if rc.Quick() && len(tiny) > 6 {
-		tiny = tiny[:6]
+	if rc.Quick() && len(tiny) > 5 {
+		tiny = tiny[:5]
 	}
 	tiny = append(tiny, c18Tokens)
 	bounds := []int{1}
